@@ -7,11 +7,13 @@ ID = 'C11'
 HERE = os.path.dirname(os.path.abspath(__file__))
 CASES = {'quick': 20000, 'thorough': 400000}
 PARALLEL = True
-RULE = ('random lineages (depth<=6, ACL length<=6, missing/empty/callable ACLs, permission forms name/list/'
+RULE = ('random lineages (depth<=6, ACL length<=6, missing/empty ACLs; ACL objects as list/tuple/callable returning a list/'
+        'generator method returning a one-shot iterator; permission forms name/list/'
         'tuple/ALL_PERMISSIONS/empty) x principal subsets x permission; non-trivial = at least one ACE in the '
         'lineage matches principal AND permission (so the decision is not the default deny); distinct by full case')
 ASSUMPTIONS = ['ACE actions are compared with == against the Allow/Deny constants; principals and permissions are str',
-               'a callable __acl__ is modelled by the list it returns; lineage() is modelled as the __parent__ chain',
+               'a callable __acl__ is modelled by the list it returns (also when it returns a one-shot iterator: the translator '
+               'admits at most one iteration over an __acl__ value per path); lineage() is modelled as the __parent__ chain',
                'ACLs are well-formed (every ACE a 3-tuple, permissions a str / iterable of str / ALL_PERMISSIONS): exceptions '
                'raised on malformed ACLs are outside the translated fragment']
 TRUSTED = ['translator harness/c11/translate.py: its PRIMITIVE TABLE (which Python leaf expression / idiom / result constructor '
@@ -25,6 +27,7 @@ TRUSTED = ['translator harness/c11/translate.py: its PRIMITIVE TABLE (which Pyth
 
 PRINCIPALS = ['system.Everyone', 'system.Authenticated', 'alice', 'bob', 'g:ed']
 PERMS = ['view', 'edit', 'del']
+FORMS = (False, True, 'gen', 'tuple')     # values of loc['callable']: list / callable->list / generator method / tuple
 
 
 def facts(src):
@@ -78,7 +81,10 @@ def gen_case(rng):
             act = rng.choice(['Allow', 'Allow', 'Deny', 'Deny', 'Deny', 'Allow', 'Other'] if rng.random() < 0.05
                              else ['Allow', 'Deny'])
             aces.append([act, rng.choice(PRINCIPALS), gen_perms(rng)])
-        lin.append({'callable': rng.random() < 0.2, 'aces': aces})
+        # form of the ACL object: a list, a tuple, a callable returning the list, or a callable written as a
+        # generator (returns a fresh ONE-SHOT iterator on every call)
+        r = rng.random()
+        lin.append({'callable': True if r < 0.15 else 'gen' if r < 0.33 else 'tuple' if r < 0.40 else False, 'aces': aces})
     k = rng.choice([0, 1, 1, 2, 2, 3, 5])
     principals = rng.sample(PRINCIPALS, k)
     # resources that are falsy (an empty dict-like folder): truthiness must not matter
@@ -136,6 +142,8 @@ def valid(case):
         for loc in case['lineage']:
             if loc is None:
                 continue
+            if loc['callable'] not in FORMS:
+                return False
             for a in loc['aces']:
                 if len(a) != 3 or not isinstance(a[1], str) or a[1] == '' or a[0] not in ('Allow', 'Deny', 'Other'):
                     return False
@@ -216,7 +224,12 @@ def _build(case):
                     pv = list(p['names'])
                 aces.append(tuple([act, a[1], pv]))
             o._aces = aces
-            if loc['callable']:
+            form = loc['callable']
+            if form == 'gen':
+                o.__acl__ = (lambda aces=aces: (e for e in aces))     # a fresh one-shot iterator per call
+            elif form == 'tuple':
+                o.__acl__ = tuple(aces)
+            elif form:
                 o.__acl__ = (lambda aces=aces: aces)
             else:
                 o.__acl__ = aces
@@ -278,6 +291,10 @@ def kinds(case, obs):
     k.append('depth%d' % len(case['lineage']))
     if any(case.get('falsy') or []):
         k.append('has-falsy-resource')
+    forms = {loc['callable'] for loc in case['lineage'] if loc is not None}
+    for f, name in ((True, 'has-callable-acl'), ('gen', 'has-generator-acl'), ('tuple', 'has-tuple-acl')):
+        if f in forms:
+            k.append(name)
     k.append('allowed-set-%s' % ('empty' if not obs[1] else 'nonempty'))
     return k
 
@@ -296,7 +313,8 @@ LEVEL_TEXT = ('Machine-checked theorems, for lineages and ACLs of any size, stat
               'loop, that the regenerated program is the hand-written reference model; a semantics-preserving rewrite of the '
               'methods (renamed locals, `if a: if b:` vs `if a and b:`, elif vs nested if, independent tests/statements moved) '
               'regenerates a different term and the same proofs go through, a change of meaning makes them fail. The extracted '
-              'regenerated program is run differentially against ACLHelper.')
+              'regenerated program is run differentially against ACLHelper, with ACL objects given as lists, tuples, callables '
+              'and generator methods (one-shot iterators).')
 LEVEL_NOTE = ('Trusted: Coq kernel; the translator (mechanical control-flow rules + the primitive table in the docstring of '
               'harness/c11/translate.py -- the table is the trusted part; anything outside subset/table is a broken tie, never a '
               'guess); the primitives of Model/C11_base.v; Python harness; lineage(), is_nonstr_iter, AllPermissionsList, the '
